@@ -13,7 +13,7 @@ SPEC = {
                 quick=480, thorough=6000, maxops=(36, 60),
                 relevant=("save", "load"), need={"c01_roundtrips": 300},
                 rule="distinct (operation,outcome) sequences of histories that ended in at least one judged save->load round trip"),
-    "C05": dict(workloads=[("mixed", False, 1.0, [])], quick=640, thorough=10000, maxops=(40, 60),
+    "C05": dict(workloads=[("mixed", False, 0.75, []), ("mixed", False, 0.25, ["--start", "@CORPUS@", "--maxops", "18"])], quick=640, thorough=10000, maxops=(40, 60),
                 relevant=("frame_", "declare_", "point_column", "channel_column", "set_", "add_param", "resubmit", "continue_on_loaded"),
                 need={"c05_checked": 5000},
                 rule="distinct (operation,outcome) sequences of disciplined histories with >= 1 shape-changing call; the three views are compared after every successful call"),
@@ -49,8 +49,17 @@ def run_workloads(prop, tier, exe, wd, spec):
     first = 0
     for wi, (profile, wild, share, extra) in enumerate(spec["workloads"]):
         cnt = max(1, int(n * share))
+        if "@CORPUS@" in extra:
+            # load-then-edit: start from well-formed files of the reference encoder (half of them with a first frame other than 1)
+            import checks_files as F
+            F.selftest_codec()
+            p1, m1, l1 = F.make_corpus(os.path.join(wd, "corpus_a"), 40, first=700000, vendor=False)
+            p2, m2, l2 = F.make_corpus(os.path.join(wd, "corpus_b"), 40, first=710000, vendor=False, force=["first_frame"])
+            lst = os.path.join(wd, "start.txt")
+            open(lst, "w").write("\n".join(p1 + p2) + "\n")
+            extra = [lst if x == "@CORPUS@" else x for x in extra]
         out = os.path.join(wd, "w%d" % wi)
-        args = ["--profile", profile, "--maxops", str(maxops)] + (["--wild"] if wild else []) + list(extra)
+        args = ["--profile", profile] + ([] if "--maxops" in extra else ["--maxops", str(maxops)]) + (["--wild"] if wild else []) + list(extra)
         C.run_driver(exe, "hist", cnt, out, args=args, first=first)
         R = C.parse_out(out)
         R.workload = dict(profile=profile, wild=wild, args=args, first=first, count=cnt)
